@@ -181,17 +181,17 @@ CLAIMED = {
         note=NOTE_COMMON + "Little-endian x86-64 memory layout is assumed; payloads are opaque bytes; header corruptions that keep the element count are accepted by code and model alike (outside the statement)."),
     "C18": dict(
         category="other", technique="Lean 4 proof of the sharing discipline on the C17/C13/C16 models (partial) + source scan re-generated on every run; concurrent-vs-sequential runs and ThreadSanitizer are tests", design="DESIGN.md §4 C18",
-        text="PARTIAL. A data race is a fact about the C++ memory model and the compiled code that no Lean model of the library exhibits, so 'no data races' and 'bit-identical results' are not proved. Proved (8 theorems, all schedules): "
+        text="PARTIAL. A data race is a fact about the C++ memory model and the compiled code that no Lean model of the library exhibits, so 'no data races' and 'bit-identical results' are not proved. Proved (11 theorems, all schedules): "
              "tasks running at the same time have different worker ids so per-worker buffers are never written concurrently (C17 protocol model); the (trial, fold) tasks of ml::tune write disjoint in-bounds ranges; sum_reduce / "
-             "min_reduce are independent of the chunk -> worker assignment in exact arithmetic (min: unique best feature); minimize with per-call line-search clones depends on its own arguments only; every mutable member / non-const "
+             "min_reduce give the same value for every chunk -> worker assignment in exact arithmetic (min: lexicographic (score, feature index) tie-break as coded since 62472c9 / 5de0896, exact ties allowed, no uniqueness hypothesis; the old score-only rule is proved schedule dependent); minimize with per-call line-search clones depends on its own arguments only; every mutable member / non-const "
              "static / pointer member found by a scan of the CURRENT sources (Gen/MutableState.lean, regenerated on every run) is in a reviewed allow-list (decide). Tested, labelled as testing: the same calls alone vs from 2..16 threads "
              "on one shared solver / loss / dataset / fitted model must be bit-identical; fits under pools of 1..16 threads, restricted affinity and injected delays must select the same features; thorough tier under ThreadSanitizer. "
-             "One open known finding (exact score ties between duplicated columns are broken by the schedule).",
+             "Fit-level comparisons use well-conditioned problems only; near-tie flips caused by re-association (margins ~1e-16) and zero-scale stop flips are recognised by the oracle, counted and skipped.",
         note=NOTE_COMMON + "The regex-level scan is not a C++ parser and the allow-list reasons are a human review; TSan observes only the schedules that happened."),
 }
 
 # entries of CLAIMED that are written but not yet registered (their check is not yet stable on the unchanged tree)
-HOLD = {"C18": "check built (Props/C18.lean, harness/c18.cpp) but not yet stable on the unchanged tree: schedule-dependent weak-learner selection under exact score ties is being repaired; not claimed until green at >= 5 seeds"}
+HOLD = {}
 
 PENDING = "check under construction in this session; not claimed until its quick check is green on the unchanged tree at several seeds"
 
